@@ -345,3 +345,80 @@ def expr_value(terms, model, val, target_asg):
     for t in terms:
         out.extend(term_value(t, model, val, target_asg))
     return out
+
+
+# -----------------------------------------------------------------------------
+# sparse polynomials (normalised) - used by the *reference* side (detref) only
+# -----------------------------------------------------------------------------
+class SP:
+    """Sparse polynomial {sorted monomial tuple: Fraction}."""
+    __slots__ = ("d",)
+
+    def __init__(self, d=None):
+        self.d = d if d is not None else {}
+
+    @staticmethod
+    def const(c):
+        c = Fraction(c)
+        return SP({(): c}) if c else SP()
+
+    @staticmethod
+    def from_ml(ml):
+        return SP(ml_combine(ml))
+
+    def to_ml(self):
+        return [(c, m) for m, c in self.d.items()]
+
+    def is_zero(self):
+        return not self.d
+
+    def __add__(self, o):
+        if not isinstance(o, SP):
+            o = SP.const(o)
+        if len(self.d) < len(o.d):
+            self, o = o, self
+        d = dict(self.d)
+        for m, c in o.d.items():
+            v = d.get(m, 0) + c
+            if v:
+                d[m] = v
+            else:
+                d.pop(m, None)
+        return SP(d)
+
+    __radd__ = __add__
+
+    def __neg__(self):
+        return SP({m: -c for m, c in self.d.items()})
+
+    def __sub__(self, o):
+        if not isinstance(o, SP):
+            o = SP.const(o)
+        return self + (-o)
+
+    def __rsub__(self, o):
+        return (-self) + o
+
+    def __mul__(self, o):
+        if not isinstance(o, SP):
+            o = Fraction(o)
+            if not o:
+                return SP()
+            return SP({m: c * o for m, c in self.d.items()})
+        if not self.d or not o.d:
+            return SP()
+        d = {}
+        for m1, c1 in self.d.items():
+            for m2, c2 in o.d.items():
+                m = tuple(sorted(m1 + m2)) if (m1 and m2) else (m1 or m2)
+                v = d.get(m, 0) + c1 * c2
+                if v:
+                    d[m] = v
+                else:
+                    d.pop(m, None)
+        return SP(d)
+
+    __rmul__ = __mul__
+
+    def __repr__(self):
+        return f"SP({len(self.d)} monomials)"
